@@ -123,7 +123,12 @@ func checkCmd(args []string) int {
 			entries = append(entries, vc.ParamCorpus(corpusDir)...)
 		}
 		cr.CheckClients(entries)
-		return cr.Finish("proof", checkerCmd, commonTrusted, "inline assertions at the NewRequest and Do calls of every Client.<Op> (method, URL term, query map content, header operations) against the reference request assembly; the server half is C04/C05; the formatter/parser inverse pairs are the wire axioms")
+		// the server half of the agreement: what new<Op>Params makes of the request
+		// the client assembled is stated by the C04 / C05 clauses of the same packages
+		cr.AlsoProps = map[string]bool{"C04": true, "C05": true}
+		cr.CheckParams(entries)
+		cr.AlsoProps = nil
+		return cr.Finish("proof", checkerCmd, commonTrusted, "inline assertions at the NewRequest and Do calls of every Client.<Op> (method, URL term, query map content, header operations) against the reference request assembly, and the server half on the same packages: the C04 / C05 clauses of every new<Op>Params (values equal the request's, reject only malformed); the formatter/parser inverse pairs are the wire axioms")
 	case "C10":
 		entries := vc.FixtureCorpus(*repo, "response_component", "response_header", "response_default", "response_schema", "octet_stream", "components", "petstore")
 		entries = append(entries, vc.ResponseCorpus(corpusDir)...)
